@@ -950,7 +950,7 @@ warnings.simplefilter('ignore')
 import numpy as np
 import onsager.PowerExpansion as PE
 T3, T2 = PE.Taylor3D, PE.Taylor2D
-assert not T3.__INITIALIZED__ and not T2.__INITIALIZED__ and 'Lmax' not in T3.__dict__ and 'Lmax' not in T2.__dict__
+assert not T3.__INITIALIZED__ and not T2.__INITIALIZED__ and 'Lmax' not in T3.__dict__ and T2.__dict__.get('Lmax') is None
 OPS = {ops!r}
 FIRST = {first!r}
 DEPTH = {depth}
@@ -1049,7 +1049,7 @@ def run_history(h):
     import importlib
     importlib.reload(PE)
     T3, T2 = PE.Taylor3D, PE.Taylor2D
-    assert not T3.__INITIALIZED__ and not T2.__INITIALIZED__ and 'Lmax' not in T3.__dict__ and 'Lmax' not in T2.__dict__
+    assert not T3.__INITIALIZED__ and not T2.__INITIALIZED__ and 'Lmax' not in T3.__dict__ and T2.__dict__.get('Lmax') is None
     return json.loads(json.dumps(steps_of(h)))
 
 hists = []
